@@ -142,3 +142,15 @@ prop("C10",
           "non-trivial: at least one write was cut short or refused with would-block and output was parked; distinct by trace hash",
      nontrivial=[["fault:short_write", "c10_frame_offered_behind_pending"], ["fault:would_block", "flush_on_writable"]],
      required_probes=["fault:short_write", "fault:would_block", "fault:write_error", "flush_on_writable", "partial_in_prefix", "partial_in_payload", "partial_in_pending", "partial_in_ws_header", "buffer_overflow", "c10_frame_offered_behind_pending", "writable_again", "ws_header_16bit"])
+
+prop("C11",
+     mix=[("c11", "wbuf", 3), ("c11", "wsmall", 2), ("c11", "default", 1), ("c11", "batch1", 0.5)],
+     quick_mix=[("c11", "wbuf", 2), ("c11", "wsmall", 1), ("c11", "default", 0.5)],
+     quick_s=30, thorough_s=600, opts={"memprop": "C11"},
+     rule="the fetch/route workloads with a drawn subset X of 1-2 peers made faulty - send path stalled until the daemon's buffer for them is full, socket failing on read or write (EPIPE, ECONNRESET, ETIMEDOUT, EHOSTUNREACH), "
+          "garbage or over-long input - connected and subscribed before the healthy peers, plus aborted and failed accepts (ECONNABORTED, EMFILE, ENFILE, ENOBUFS, ENOMEM, EPROTO, EINTR) on every listener. "
+          "For every peer outside X the reference model's expectations are unchanged: every notification, routed request and relayed reply with the same content, replicas exact at every quiescent point, requests answered exactly once "
+          "(result:true or a delivery error where a member of X had to be notified - the effect must be there either way; one error, immediate or at the deadline, for requests routed to a member of X), no healthy connection dropped; "
+          "afterwards a fresh client is accepted and served. non-trivial: a fault fired while a healthy peer had expectations; distinct by trace hash",
+     nontrivial=[["fault:would_block", "notify_add"], ["fault:write_error", "notify_add"], ["fault:sockerr", "notify_add"], ["fault:accept_failed:103"], ["fault:accept_failed:24"], ["routed_to_faulty_owner"]],
+     required_probes=["fault:would_block", "fault:write_error", "fault:sockerr", "fault:stall", "routed_to_faulty_owner", "faulty_peer_dropped_by_daemon", "canary_ok", "notify_change", "owner_replied"])
